@@ -125,6 +125,14 @@ pub fn note_replay(cfg: &Cfg, rep: &mut Report) {
     if let Ok(text) = std::fs::read_to_string(path) {
       if let Ok(j) = serde_json::from_str::<serde_json::Value>(&text) {
         if let Some(input) = j.get("input").and_then(|v| v.as_str()) {
+          // `TZ=<zone> <expression>`: a case of the family process-zone, evaluated in a child process with TZ set
+          if let Some(rest) = input.strip_prefix("TZ=") {
+            if let Some((tz, e)) = rest.split_once(' ') {
+              let r = crate::c15::pz_child(tz, &[e.to_string()]).and_then(|v| v.into_iter().next()).unwrap_or_else(|| "no answer".into());
+              rep.notes.push(format!("replay input `{}` evaluates to {} in a process with TZ={}", e, r, tz));
+              return;
+            }
+          }
           rep.notes.push(format!("replay input `{}` evaluates to {}", input, feel(input)));
         }
       }
@@ -1530,17 +1538,17 @@ fn run_siblings(rep: &mut Report, model: &mut Model, rng: &mut Rng, thorough: bo
 /// Offset at the start and `(instant, offset from then on)`; `since` / `until`: nothing is generated outside
 /// (the database bundled with chrono-tz is older than the one the table was made from; the generator of the
 /// table says for each zone which release changed what).
-struct ZoneTable {
-  name: String,
-  initial: i64,
-  trs: Vec<(i64, i64)>,
-  since: i64,
-  until: i64,
+pub(crate) struct ZoneTable {
+  pub(crate) name: String,
+  pub(crate) initial: i64,
+  pub(crate) trs: Vec<(i64, i64)>,
+  pub(crate) since: i64,
+  pub(crate) until: i64,
 }
 
 impl ZoneTable {
   /// The offsets in force for the local time `local` (seconds on the naive line): 0, 1 or 2 of them.
-  fn offsets_for_local(&self, local: i64) -> Vec<i64> {
+  pub(crate) fn offsets_for_local(&self, local: i64) -> Vec<i64> {
     let mut out: Vec<i64> = vec![];
     let n = self.trs.len();
     // segment k: [start_k, end_k) with offset o_k; segment 0 starts at minus infinity
@@ -1557,7 +1565,7 @@ impl ZoneTable {
   }
 }
 
-fn load_zone_tables(rep: &mut Report) -> Vec<ZoneTable> {
+pub(crate) fn load_zone_tables(rep: &mut Report) -> Vec<ZoneTable> {
   let path = concat!(env!("CARGO_MANIFEST_DIR"), "/../corpus/C14/zone_transitions.json");
   let table: serde_json::Value = std::fs::read_to_string(path).ok().and_then(|t| serde_json::from_str(&t).ok()).unwrap_or(json!({}));
   let mut out = vec![];
@@ -1573,6 +1581,10 @@ fn load_zone_tables(rep: &mut Report) -> Vec<ZoneTable> {
     rep.disagree(Kind::ImplVsModel, "zone-instant", "corpus/C14/zone_transitions.json not found or empty", path, "", "the table of zone transitions");
   }
   out
+}
+
+pub(crate) fn zi_days_from_civil_pub(y: i64, m: i64, d: i64) -> i64 {
+  zi_days_from_civil(y, m, d)
 }
 
 fn zi_days_from_civil(y: i64, m: i64, d: i64) -> i64 {
@@ -1599,7 +1611,7 @@ fn zi_civil_from_days(z: i64) -> (i64, i64, i64) {
 }
 
 /// `YYYY-MM-DDThh:mm:ss[.fffffffff]` of seconds on the naive line.
-fn zi_local_text(local: i64, ns: i64) -> String {
+pub(crate) fn zi_local_text(local: i64, ns: i64) -> String {
   let (y, m, d) = zi_civil_from_days(local.div_euclid(86_400));
   let sod = local.rem_euclid(86_400);
   let frac = if ns > 0 { format!(".{}", format!("{:09}", ns).trim_end_matches('0')) } else { String::new() };
@@ -1799,9 +1811,28 @@ fn run_zone_instant(rep: &mut Report, model: &mut Model, thorough: bool) {
       if day0 + 86_400 + 54_000 >= z.until || day0 - 54_000 < z.since || !feel(&format!("time(\"12:00:00@{}\")", z.name)).starts_with("(time") {
         continue;
       }
+      // the Lean statement of the same question (`timeOffsetOn`, theorem time_zone_literal_denotes: the offset of
+      // `time("…@zone")` on the day `today` under the rules of the zone), compared with the interval oracle
+      let req = format!(
+        "(c15 localoff {} ({}) ({}))",
+        z.initial,
+        z.trs.iter().map(|(t, o)| format!("{} {}", t, o)).collect::<Vec<_>>().join(" "),
+        (0..48).map(|k| format!("({} {} {} {} {} 0 0 local)", y, m, d, k / 2, (k % 2) * 30)).collect::<Vec<_>>().join(" ")
+      );
+      let ans = model.ask(&req);
+      let lean: Vec<String> = Sexp::parse(&ans).and_then(|s| s.as_list().map(|l| l.iter().map(|it| it.as_list().and_then(|p| p.first().map(|x| x.to_string())).unwrap_or_default()).collect())).unwrap_or_default();
+      if lean.len() != 48 {
+        rep.disagree(Kind::ImplVsModel, "zone-instant", "driver-error (c15 localoff)", &z.name, &ans.chars().take(80).collect::<String>(), "one pair of offsets per time");
+      }
       for k in 0..48 {
         let sod = k * 1800;
         let offs = z.offsets_for_local(day0 + sod);
+        if let Some(l) = lean.get(k as usize) {
+          let want = if offs.len() == 1 { offs[0].to_string() } else { "none".to_string() };
+          if l != &want {
+            rep.disagree(Kind::ImplVsModel, "zone-instant", "harness: the interval oracle and the Lean timeOffsetOn differ", &format!("{} today {}", z.name, zi_time_text(sod)), &want, l);
+          }
+        }
         let written = format!("{}@{}", zi_time_text(sod), z.name);
         let e = format!("{{v: time(\"{}\"), r: [v.time offset, v = v, string(v)]}}.r", written);
         let r = feel_list(&e);
